@@ -278,14 +278,35 @@ Json gen(sim::Rng& rng, int tier)
 }
 
 // ---- execution ----------------------------------------------------------------------------------
-using PInt = Async::Promise<int>;
+// The value type of every promise in a program: an int that shows when it has been moved from. The values stored in a
+// promise are shared by all its continuations and by the combinators it feeds; a continuation that takes its argument by
+// value must get a copy, never the stored object itself.
+struct TV {
+    static constexpr int kMovedFrom = -77777;
+    int v = 0;
+    TV() = default;
+    TV(int x) : v(x) { }
+    TV(const TV&) = default;
+    TV& operator=(const TV&) = default;
+    TV(TV&& o) noexcept : v(o.v) { o.v = kMovedFrom; }
+    TV& operator=(TV&& o) noexcept
+    {
+        if (&o != this) {
+            v = o.v;
+            o.v = kMovedFrom;
+        }
+        return *this;
+    }
+    operator int() const { return v; }
+};
+using PInt = Async::Promise<TV>;
 
 struct Exec {
     std::vector<Node> nodes;
     std::vector<std::unique_ptr<PInt>> prom;           // the Promise<int> a node yields (null for void nodes / not created)
     std::vector<bool> created;
     std::vector<Obs> obs;
-    std::vector<std::unique_ptr<Async::Deferred<int>>> rootDef, innerDef;
+    std::vector<std::unique_ptr<Async::Deferred<TV>>> rootDef, innerDef;
     std::mutex big;                                      // application-level lock: one action at a time
     struct Done { std::string op; int node; bool rej; bool raised; std::string what; };
     std::vector<Done> log;
@@ -306,14 +327,14 @@ struct Exec {
         Node& n = nodes[static_cast<size_t>(k)];
         PInt& parent = *prom[static_cast<size_t>(n.parent)];
         Obs& o = obs[static_cast<size_t>(k)];
-        auto body = [this, k, &o](int v) { o.f_count++; o.f_val = v; return node_value(k, v); };
+        auto body = [this, k, &o](TV v) { o.f_count++; o.f_val = v; return TV(node_value(k, v)); };
         switch (n.f) {
-        case FResolved: return then_with(parent, n.r, o, [body](int v) { return PInt::resolved(body(v)); });
-        case FRejected: return then_with(parent, n.r, o, [body, k](int v) { body(v); return PInt::rejected(TestExc(5000 + k)); });
+        case FResolved: return then_with(parent, n.r, o, [body](TV v) { return PInt::resolved(body(v)); });
+        case FRejected: return then_with(parent, n.r, o, [body, k](TV v) { body(v); return PInt::rejected(TestExc(5000 + k)); });
         case FPending:
-            return then_with(parent, n.r, o, [this, body, k](int v) {
+            return then_with(parent, n.r, o, [this, body, k](TV v) {
                 body(v);
-                return PInt([this, k](Async::Deferred<int> d) { innerDef[static_cast<size_t>(k)] = std::make_unique<Async::Deferred<int>>(std::move(d)); });
+                return PInt([this, k](Async::Deferred<TV> d) { innerDef[static_cast<size_t>(k)] = std::make_unique<Async::Deferred<TV>>(std::move(d)); });
             });
         default: return then_with(parent, n.r, o, body);
         }
@@ -323,7 +344,7 @@ struct Exec {
         Node& n = nodes[static_cast<size_t>(k)];
         PInt& parent = *prom[static_cast<size_t>(n.parent)];
         Obs& o = obs[static_cast<size_t>(k)];
-        auto body = [&o](int v) { o.f_count++; o.f_val = v; };
+        auto body = [&o](TV v) { o.f_count++; o.f_val = v; };
         if (n.r == RThrow) parent.then(body, [&o](std::exception_ptr e) { o.r_count++; o.r_exc = exc_tag(e); Async::Throw(e); });
         else parent.then(body, [&o](std::exception_ptr e) { o.r_count++; o.r_exc = exc_tag(e); });
     }
@@ -341,8 +362,8 @@ struct Exec {
         auto sum_of = [](const std::vector<int>& v) { unsigned s = 0; for (int x : v) s = s * 31u + static_cast<unsigned>(x); return static_cast<int>(s & 0x3fffffffu); };
         if (n.kind == NAny) {
             auto fin = [&](Async::Promise<Async::Any> R) {
-                R.then([&o](const Async::Any& a) { o.f_count++; o.tuple = { a.cast<int>() }; }, rec_r);
-                return R.then([](const Async::Any& a) { return a.cast<int>(); }, Async::Throw);
+                R.then([&o](const Async::Any& a) { o.f_count++; o.tuple = { a.cast<TV>() }; }, rec_r);
+                return R.then([](const Async::Any& a) { return a.cast<TV>(); }, Async::Throw);
             };
             switch (in.size()) {
             case 1: return fin(Async::whenAny(*in[0]));
@@ -353,32 +374,32 @@ struct Exec {
         }
         if (n.kind == NAllRange) {
             auto vec = std::make_unique<std::vector<PInt>>();
-            for (PInt* p : in) vec->push_back(p->then([](int v) { return v; }, Async::Throw));
+            for (PInt* p : in) vec->push_back(p->then([](TV v) { return v; }, Async::Throw));
             auto R = Async::whenAll(vec->begin(), vec->end());
             ranges.push_back(std::move(vec));
-            R.then([&o](const std::vector<int>& v) { o.f_count++; o.tuple = v; }, rec_r);
-            return R.then([sum_of](const std::vector<int>& v) { return sum_of(v); }, Async::Throw);
+            R.then([&o](const std::vector<TV>& v) { o.f_count++; o.tuple.assign(v.begin(), v.end()); }, rec_r);
+            return R.then([sum_of](const std::vector<TV>& v) { return TV(sum_of(std::vector<int>(v.begin(), v.end()))); }, Async::Throw);
         }
         switch (in.size()) {
         case 1: {
             auto R = Async::whenAll(*in[0]);
-            R.then([&o](const std::tuple<int>& t) { o.f_count++; o.tuple = tup(t, std::make_index_sequence<1>()); }, rec_r);
-            return R.then([sum_of](const std::tuple<int>& t) { return sum_of(tup(t, std::make_index_sequence<1>())); }, Async::Throw);
+            R.then([&o](const std::tuple<TV>& t) { o.f_count++; o.tuple = tup(t, std::make_index_sequence<1>()); }, rec_r);
+            return R.then([sum_of](const std::tuple<TV>& t) { return TV(sum_of(tup(t, std::make_index_sequence<1>()))); }, Async::Throw);
         }
         case 2: {
             auto R = Async::whenAll(*in[0], *in[1]);
-            R.then([&o](const std::tuple<int, int>& t) { o.f_count++; o.tuple = tup(t, std::make_index_sequence<2>()); }, rec_r);
-            return R.then([sum_of](const std::tuple<int, int>& t) { return sum_of(tup(t, std::make_index_sequence<2>())); }, Async::Throw);
+            R.then([&o](const std::tuple<TV, TV>& t) { o.f_count++; o.tuple = tup(t, std::make_index_sequence<2>()); }, rec_r);
+            return R.then([sum_of](const std::tuple<TV, TV>& t) { return TV(sum_of(tup(t, std::make_index_sequence<2>()))); }, Async::Throw);
         }
         case 3: {
             auto R = Async::whenAll(*in[0], *in[1], *in[2]);
-            R.then([&o](const std::tuple<int, int, int>& t) { o.f_count++; o.tuple = tup(t, std::make_index_sequence<3>()); }, rec_r);
-            return R.then([sum_of](const std::tuple<int, int, int>& t) { return sum_of(tup(t, std::make_index_sequence<3>())); }, Async::Throw);
+            R.then([&o](const std::tuple<TV, TV, TV>& t) { o.f_count++; o.tuple = tup(t, std::make_index_sequence<3>()); }, rec_r);
+            return R.then([sum_of](const std::tuple<TV, TV, TV>& t) { return TV(sum_of(tup(t, std::make_index_sequence<3>()))); }, Async::Throw);
         }
         default: {
             auto R = Async::whenAll(*in[0], *in[1], *in[2], *in[3]);
-            R.then([&o](const std::tuple<int, int, int, int>& t) { o.f_count++; o.tuple = tup(t, std::make_index_sequence<4>()); }, rec_r);
-            return R.then([sum_of](const std::tuple<int, int, int, int>& t) { return sum_of(tup(t, std::make_index_sequence<4>())); }, Async::Throw);
+            R.then([&o](const std::tuple<TV, TV, TV, TV>& t) { o.f_count++; o.tuple = tup(t, std::make_index_sequence<4>()); }, rec_r);
+            return R.then([sum_of](const std::tuple<TV, TV, TV, TV>& t) { return TV(sum_of(tup(t, std::make_index_sequence<4>()))); }, Async::Throw);
         }
         }
     }
@@ -412,11 +433,11 @@ struct Exec {
             } else if (op == "settle") {
                 auto def = std::move(rootDef[static_cast<size_t>(k)]);
                 if (rej) def->reject(TestExc(100 + k));
-                else def->resolve(1000 * (k + 1));
+                else def->resolve(TV(1000 * (k + 1)));
             } else if (op == "settle_inner") {
                 auto def = std::move(innerDef[static_cast<size_t>(k)]);
                 if (rej) def->reject(TestExc(200 + k));
-                else def->resolve(9000 + k);
+                else def->resolve(TV(9000 + k));
             }
         } catch (const std::exception& e) {
             d.raised = true;
@@ -465,7 +486,7 @@ void run(const Json& plan)
     X.innerDef.resize(N);
     for (size_t i = 0; i < N; ++i) {
         if (X.nodes[i].kind == NRoot) {
-            X.prom[i] = std::make_unique<PInt>([&X, i](Async::Deferred<int> d) { X.rootDef[i] = std::make_unique<Async::Deferred<int>>(std::move(d)); });
+            X.prom[i] = std::make_unique<PInt>([&X, i](Async::Deferred<TV> d) { X.rootDef[i] = std::make_unique<Async::Deferred<TV>>(std::move(d)); });
             X.created[i] = true;
         }
     }
